@@ -47,6 +47,7 @@ def run(res, tier, replay=None):
     c19.run_f(prog, res)
     type_guards(prog, res)
     c19.run_h(prog, res)
+    c19.run_i(prog, res, floor=1)
     c04c.bounds_witnesses(prog, res)
     res.assumptions = common.ASSUMPTIONS
     res.explanation = (
@@ -55,7 +56,7 @@ def run(res, tier, replay=None):
         "offset to an accessor helper, the helper's access width (memcpy size / indexed element size, summarised through the "
         "static helpers) and the branch conditions dominating the call must imply 0 <= off and off + width <= length of the "
         "same object (uniform vectors: 0 <= i < uvector-length of the same vector); (b) the recursion cycles of lib/chibi/json.c "
-        "go through a verified depth bound; (c) growable string buffers of json.c: the index advances by at most K between two evaluations of the growth guard `i + K >= size`. (d) the JSON number reader compares its double against SEXP_MAX_FIXNUM with the operator that stays correct under rounding of that constant; (e) no fixnum is boxed from a double accumulator unless a comparison holding on every path bounds its magnitude by 2^53 (a JSON integer must not lose its low bits on the way in). (f) JSON string escapes: every escape letter json_write_string emits is decoded by json_read_string to the character it stood for, and the quote and the backslash are escaped. (g) every generated accessor stub of (srfi 160) and (scheme bytevector) type-checks its vector argument before reading its length or data (the kind-set dataflow of C01.b applied to these units, where the property asks for totality). (h) in the hand-written helpers of those units, a load of a w-byte unit at `p + i` whose index is bounded by a dominating comparison with a never-assigned parameter has the slack of the whole unit (i + (w-1) < L): the UTF-16 / UTF-32 decoders do not read past a truncated input. Not decided: encode/decode inverses, base64/QP/URI/CSV (Scheme), mini-floats.")
+        "go through a verified depth bound; (c) growable string buffers of json.c: the index advances by at most K between two evaluations of the growth guard `i + K >= size`. (d) the JSON number reader compares its double against SEXP_MAX_FIXNUM with the operator that stays correct under rounding of that constant; (e) no fixnum is boxed from a double accumulator unless a comparison holding on every path bounds its magnitude by 2^53 (a JSON integer must not lose its low bits on the way in). (f) JSON string escapes: every escape letter json_write_string emits is decoded by json_read_string to the character it stood for, and the quote and the backslash are escaped. (g) every generated accessor stub of (srfi 160) and (scheme bytevector) type-checks its vector argument before reading its length or data (the kind-set dataflow of C01.b applied to these units, where the property asks for totality). (h) in the hand-written helpers of those units, a load of a w-byte unit at `p + i` whose index is bounded by a dominating comparison with a never-assigned parameter has the slack of the whole unit (i + (w-1) < L): the UTF-16 / UTF-32 decoders do not read past a truncated input. (i) in those units no assignment to an 8- or 16-bit integer variable adds a constant that exceeds the variable's range (the supplementary-plane base 0x10000 of the UTF-16 decoder was lost that way; repaired). Not decided: encode/decode inverses, base64/QP/URI/CSV (Scheme), mini-floats.")
     if tier == "thorough":
         common.thorough_mutations(res, "C19", {
             "C19.a": lambda p, r: c19.run_a(p, r, floor=0),
@@ -64,6 +65,7 @@ def run(res, tier, replay=None):
             "C19.d": lambda p, r: c04c.run_bounds(p, r, "C19", "C19.d", {"json.c"}, floor=0),
             "C19.f": lambda p, r: c19.run_f(p, r, floor=0),
             "C19.h": lambda p, r: c19.run_h(p, r, floor=0),
+            "C19.i": lambda p, r: c19.run_i(p, r, floor=0),
             "C19.g": lambda p, r: type_guards(p, r, floor=0),
             "C19.e": lambda p, r: c04c.run_fromdouble(p, r, "C19", "C19.e", {"json.c"}, floor=0),
         })
